@@ -51,6 +51,8 @@ enum UmadCtor {
 enum UmadGenome {
     VectorU32,
     Plushy,
+    /// `Vector<()>`: zero-sized genes (a unit-like marker gene); only lengths and counts can be observed
+    VectorUnit,
 }
 
 #[derive(Serialize, Deserialize, Clone, Debug)]
@@ -97,6 +99,12 @@ impl ProbeGen {
 impl Distribution<u32> for ProbeGen {
     fn sample<R: Rng + ?Sized>(&self, rng: &mut R) -> u32 {
         self.next(rng)
+    }
+}
+
+impl Distribution<()> for ProbeGen {
+    fn sample<R: Rng + ?Sized>(&self, rng: &mut R) {
+        let _ = self.next(rng);
     }
 }
 
@@ -276,6 +284,55 @@ fn check_umad(
     let close_mask = if genome == UmadGenome::Plushy && len > 0 { close_mask & ((1u64 << len.min(63)) - 1) } else { 0 };
     let is_close = |i: usize| i < 63 && close_mask >> i & 1 == 1;
     let probe = ProbeGen { log: RefCell::new(Vec::new()) };
+    if genome == UmadGenome::VectorUnit {
+        let r = catch(|| {
+            let umad = match ctor {
+                UmadCtor::New => Umad::new(add, del, &probe),
+                UmadCtor::WithEmptyRate => Umad::new_with_empty_rate(add, empty, del, &probe),
+                UmadCtor::WithoutEmpty => Umad::new_without_empty(add, del, &probe),
+            };
+            let parent: Vector<()> = Vector { genes: vec![(); len] };
+            match umad.mutate(parent, &mut rng) {
+                Ok(c) => c.genes.len(),
+                Err(e) => match e {},
+            }
+        });
+        obs.count("draws", rng.draws());
+        obs.count("fault.adversarial-stream-words", rng.boundary_fired());
+        obs.hit("probe.umad-on-zero-sized-genes");
+        let made = probe.log.borrow().len();
+        let cfg = format!("add {add}, empty {empty}, del {del}, len {len}, zero-sized genes");
+        let mut v = Vec::new();
+        match r {
+            Err(p) => v.push(Violation::new(
+                "never-panics",
+                format!("panic:{site}"),
+                format!("UMAD(add {add}, empty {empty}, del {del}) of a length-{len} genome of zero-sized genes panicked: {}", p.message),
+            )),
+            Ok(n) => {
+                let limit = if len > 0 { 2 * len } else { usize::from(ctor != UmadCtor::WithoutEmpty) };
+                if n > limit || n > len + made {
+                    v.push(Violation::new(
+                        "at-most-one-insert-per-position",
+                        format!("insert-count:{site}"),
+                        format!("{cfg}: the child has {n} genes; the generator produced {made} and at most {limit} are possible"),
+                    ));
+                }
+                if len > 0 && add <= 0.0 && del <= 0.0 && n != len {
+                    v.push(Violation::new("rate-0-is-identity", format!("rate0:{site}"), format!("{cfg}: the child has {n} genes")));
+                }
+                if len > 0 && del >= 1.0 && n > made {
+                    v.push(Violation::new(
+                        "delete-rate-1",
+                        format!("del1:{site}"),
+                        format!("{cfg}: deletion rate 1 but the child has {n} genes with only {made} generated"),
+                    ));
+                }
+            }
+        }
+        obs.nontrivial(mix(mix(0x2e57, len as u64), (add * 1000.0) as u64 ^ ((del * 1000.0) as u64) << 12));
+        return v;
+    }
     let r = catch(|| -> Vec<Option<u32>> {
         let umad = match ctor {
             UmadCtor::New => Umad::new(add, del, &probe),
@@ -298,6 +355,7 @@ fn check_umad(
                     Err(e) => match e {},
                 }
             }
+            UmadGenome::VectorUnit => Vec::new(), // (handled above)
             UmadGenome::Plushy => {
                 let parent = Plushy::new((0..len).map(|i| {
                     if is_close(i) {
@@ -612,6 +670,7 @@ impl Check for C11 {
             "probe.rate>=1",
             "probe.umad-addition-1-deletion-0",
             "probe.umad-deletion-1",
+            "probe.umad-on-zero-sized-genes",
             "probe.umad-rate-0",
         ]
     }
@@ -667,7 +726,7 @@ impl Check for C11 {
                 add: *g.pick(&RATES64),
                 empty: *g.pick(&RATES64),
                 del: *g.pick(&RATES64),
-                genome: *g.pick(&[UmadGenome::VectorU32, UmadGenome::Plushy]),
+                genome: if g.chance(1, 12) { UmadGenome::VectorUnit } else { *g.pick(&[UmadGenome::VectorU32, UmadGenome::Plushy]) },
                 len,
                 close_mask: match g.below(4) {
                     0 | 1 => 0,
